@@ -259,8 +259,8 @@ def gen_cmd_case(rng):
         i = rng.choice(idx)
         n = len(oracles.lookup(oracles.doc_plain(basedoc), tuple(p[:i])))
         p[i] = p[i] - n
-    val = rng.choice(['5', 'x', 'true', '1.5', 'null', "''", '7'])
-    return dict(kind='cmdline', base=basedoc, path=p, value=val, mode=mode)
+    val = rng.choice(['5', 'x', 'true', '1.5', 'null', "''", '7', '!force 0.5', '!null', '!!str 5', '!force x'])   # a value may carry its own tag
+    return dict(kind='cmdline', base=basedoc, path=p, value=val, mode=mode, pad=rng.choice([0, 0, 1, 2, 3]))
 
 
 def judge_cmd(case):
@@ -269,8 +269,15 @@ def judge_cmd(case):
     from awesomeyaml import errors
     bp = oracles.doc_plain(case['base'])
     arg = render_path(case['path']) + '=' + case['value']
+    # options as a shell hands them over: blanks around the option, around '=' and around a raw document do not matter
+    pad = case.get('pad', 0)
+    basetext = gen.render(case['base'])
+    if pad & 1:
+        arg = '  ' + render_path(case['path']) + ' = ' + case['value'] + ' '
+    if pad & 2:
+        basetext = ' ' + basetext + '  '
     try:
-        yamls, fnames, raws = Config.process_cmdline([gen.render(case['base']), arg])
+        yamls, fnames, raws = Config.process_cmdline([basetext, arg])
         b = Builder()
         b.add_multiple_sources(*yamls, raw_yaml=raws, filename=fnames)
         res = ('ok', base.to_plain(b.build()))
@@ -298,7 +305,8 @@ def judge_cmd(case):
         if res[0] != 'MergeError':
             return dict(arg=arg, base=gen.render(case['base']), reason='a mistyped override path must be a MergeError, not a new entry', got=res[0], result=repr(res[1]))
         return None
-    exp = set_plain(bp, tuple(p), oracles.scalar_value(case['value']))
+    tagged = {'!force 0.5': 0.5, '!null': None, '!!str 5': '5', '!force x': 'x'}
+    exp = set_plain(bp, tuple(p), tagged[case['value']] if case['value'] in tagged else oracles.scalar_value(case['value']))
     if res[0] != 'ok':
         return dict(arg=arg, base=gen.render(case['base']), reason='override of an existing path failed', got=res[0], message=res[1])
     if base.typed(res[1]) != base.typed(exp):
@@ -386,7 +394,7 @@ def run(rep, tier, rng):
     cc = [gen_call_case(rng) for _ in range(60 if tier == 'quick' else 600)]
     base.run_oracle(rep, 'C08', '!notnew replacing a subtree that holds a function node', cc, judge_call, show=lambda c: dict(base=gen.render(c['base']), newer=gen.render(c['newer']), creates=c['creates'], call=True))
     base.run_oracle(rep, 'C08', 'command-line override sets exactly one existing path', cm, judge_cmd,
-                    show=lambda c: dict(base=gen.render(c['base']), path=c['path'], value=c['value'], mode=c['mode']))
+                    show=lambda c: dict(base=gen.render(c['base']), path=c['path'], value=c['value'], mode=c['mode'], pad=c.get('pad', 0)))
 
 
 def replay(data):
@@ -406,7 +414,7 @@ def replay(data):
         elif 'newer' in x:
             f = judge_notnew(dict(base=parse_doc(x['base']), newer=parse_doc(x['newer'])))
         else:
-            f = judge_cmd(dict(base=parse_doc(x['base']), path=x['path'], value=x['value'], mode=x.get('mode')))
+            f = judge_cmd(dict(base=parse_doc(x['base']), path=x['path'], value=x['value'], mode=x.get('mode'), pad=x.get('pad', 0)))
         print('replay:', 'property FAILS' if f else 'property holds', f or '')
         return 1 if f else 0
     print('no input to replay; broken obligations:', r)
